@@ -38,6 +38,7 @@ _BT_EQ = "forall(q, 0, i, fromstops[q] - fromstarts[q] == fromoffsets[q + 1] - f
 _BT_CARRY = "forall(q, 0, i, forall(r, 0, fromoffsets[q + 1] - fromoffsets[q], tocarry[fromoffsets[q] - fromoffsets[0] + r] == fromstarts[q] + r))"
 K("awkward_ListArray_broadcast_tooffsets",
   requires=["offsetslength >= 1"],
+  store_asserts={"tocarry": ["fromstarts[i] <= value and value < fromstops[i]"]},
   per_spec={"ListArray64": {
       "extents": {"tocarry": "fromoffsets[offsetslength - 1] - fromoffsets[0]", "fromoffsets": "offsetslength",
                   "fromstarts": "offsetslength - 1", "fromstops": "offsetslength - 1"},
